@@ -166,14 +166,18 @@ def run(facts, cg):
             key = simplify(T.resolve_env(simplify(T.of_operand(b, t['args'][1]))))
             n_meta += 1
             from_opts = any(n_[0] == 'field' and n_[2] in ('metadata_strings', 'metadata_files') for n_ in walk(key))
-            instances.append({'rule': 'R-DICT-WIRING(metadata-entries)', 'function': b.q, 'at': t['loc'], 'key_from_the_options': from_opts})
-            if not from_opts:
-                findings.append({'rule': 'R-DICT-WIRING', 'key': 'R-DICT-WIRING|%s|metadata-extra-entry' % b.q, 'function': b.q,
+            # reported only where the key is positively something else: a string literal, or derived from another option (the input
+            # path ..) - a key that arrives through a closure parameter or a helper is taken to be the user's (the wiring of the
+            # options themselves is R-DICT-WIRING's subject)
+            # (a string literal, or a named string constant of the tool)
+            literal = [n_[1] for n_ in walk(key) if n_[0] == 'const' and isinstance(n_[1], str) and (n_[1].startswith('"') or n_[1].split('::')[-1].isupper())]
+            other_opt = [n_[2] for n_ in walk(key) if n_[0] == 'field' and n_[2] in ('input', 'output', 'temp_file', 'chunker_config', 'compression', 'hash_length')]
+            foreign = (literal or other_opt) and not from_opts
+            instances.append({'rule': 'R-DICT-WIRING(metadata-entries)', 'function': b.q, 'at': t['loc'], 'key_from_the_options': from_opts, 'key_made_up_by_the_tool': bool(foreign)})
+            if foreign:
+                findings.append({'rule': 'R-DICT-WIRING', 'key': 'R-DICT-WIRING|%s|metadata-extra-entry' % b.q.split('::{closure')[0], 'function': b.q,
                                  'what': 'an entry is added to the metadata of the archive at %s whose key (%s) does not come from --metadata-value / --metadata-file: the archive '
                                          'records something the user did not ask for, its bytes depend on it' % (t['loc'], show(key)[:50])})
-    if n_meta < 2:
-        findings.append({'rule': 'R-DICT-WIRING', 'key': 'R-DICT-WIRING|-|floor-metadata-entries', 'function': '-',
-                         'what': 'expected the two inserts into the metadata map of compress, found %d (cannot decide)' % n_meta})
     if n_def < 1:
         findings.append({'rule': 'R-CLIFLAGS', 'key': 'R-CLIFLAGS|-|floor-progress', 'function': '-', 'what': 'the definition of --buffered-chunks was not found (cannot decide)'})
     return instances, findings
